@@ -129,6 +129,7 @@ def _compose_contract(simplify, via):
         c1, c2 = u.contract("c1"), u.contract("c2")
         keep = u.varlist("keep")
         order = Opaque("tactics_order")
+        u.record_op("compose", c1, c2, keep, simplify)
         I1, O1, I2, O2 = (u.mem(c1.attrs["inputvars"]), u.mem(c1.attrs["outputvars"]), u.mem(c2.attrs["inputvars"]), u.mem(c2.attrs["outputvars"]))
         K = u.mem(keep)
         if via == "compose_tactics":
@@ -203,6 +204,7 @@ def _quotient_contract(simplify, via):
         c, c1 = u.contract("c"), u.contract("c1")
         add = u.varlist("add")
         order = Opaque("tactics_order")
+        u.record_op("quotient", c, c1, add, simplify)
         I, O, I1, O1 = (u.mem(c.attrs["inputvars"]), u.mem(c.attrs["outputvars"]), u.mem(c1.attrs["inputvars"]), u.mem(c1.attrs["outputvars"]))
         K = u.mem(add)
         if via == "quotient_tactics":
@@ -274,6 +276,7 @@ contract(
 def c_merge(h):
     u = U(h)
     c1, c2 = u.contract("c1"), u.contract("c2")
+    u.record_op("merge", c1, c2)
     I1, O1, I2, O2 = (u.mem(c1.attrs["inputvars"]), u.mem(c1.attrs["outputvars"]), u.mem(c2.attrs["inputvars"]), u.mem(c2.attrs["outputvars"]))
     out = h.call(h.method(c1, "merge"), [c2])
     kind = _classify(h, u, out)
